@@ -657,6 +657,9 @@ func C04(tier string) int {
 					break
 				}
 			}
+			if ch := a.HeldPayloadsChanged(); len(ch) > 0 {
+				hvs = append(hvs, hv{"payload-changed-after-hand-over", fmt.Sprintf("%v: %s", names, ch[0]), M{"check": "C04", "part": "history", "requests": names}})
+			}
 			n++
 		}
 		hmu.Lock()
